@@ -50,7 +50,11 @@ def product_spec(seed):
     rng = np.random.default_rng([int(seed), 121])
     for k in range(50):
         spec = c11.gen_spec(seed * 64 + k, 'quick')
-        if all(etgen.is_product(l['boxes']) for l in spec['levels'].values()):
+        same_count = len({len(l['boxes']) for l in spec['levels'].values()}) == 1
+        if all(etgen.is_product(l['boxes']) for l in spec['levels'].values()) \
+                and (spec['layout'] != 'proc' or same_count):
+            # (per-process files hold every level: a level with fewer components
+            #  than there are process files is a directory the reader may refuse)
             break
     if rng.random() < 0.65:
         spec['vars'] = list(TENSOR_SETS[int(rng.integers(len(TENSOR_SETS)))])
